@@ -61,3 +61,28 @@ Definition all_lower (l : list bytes) : bool := forallb (fun e => bytes_eqb (low
 (* what must happen to one request of a history: the expectation of the single request to the operation it addresses *)
 Definition expected_req (default : bytes) (registered : list bytes) (q : greq) : option nat * option bytes :=
   expected_route (gq_hasbody q) (gq_parse q) (gq_declared q) default registered.
+
+(* ---- the operation's parameter set. The check on the media type applies to every request that carries a body,
+   whether or not the operation declares something to read from it. On the reflective entry point:
+   ex = what the gate must answer (expected / expected_route); status, cons, ran = status of the refusal served,
+   consumer whose Consume ran, the request went through (BindAndValidate answered no error / the handler ran).
+   A refusal of the gate is served as it is, no consumer and no handler runs. Past the gate the consumer picked
+   decodes the body only for an operation that declares a body parameter; a formData operation may still be refused
+   by its form stage (form_refused; which status is not this property's matter) ---- *)
+Definition reads_body (k : opkind) : bool := match k with KBody => true | _ => false end.
+Definition is_form (k : opkind) : bool := match k with KForm => true | _ => false end.
+Definition is_some {A} (o : option A) : bool := match o with Some _ => true | None => false end.
+Definition is_none {A} (o : option A) : bool := match o with Some _ => false | None => true end.
+
+Definition reflective_ok (k : opkind) (form_refused : bool) (ex : option nat * option bytes)
+  (status : option nat) (cons : option bytes) (ran : bool) : bool :=
+  match fst ex with
+  | Some s => opt_eqb Nat.eqb status (Some s) && is_none cons && negb ran
+  | None =>
+    if is_form k && form_refused then is_some status && is_none cons && negb ran
+    else is_none status && opt_eqb bytes_eqb cons (if reads_body k then snd ex else None) && ran
+  end.
+
+(* the consumer the entry point picked for the request (route.Consumer), when it did not refuse: the gate's *)
+Definition picked_ok (ex : option nat * option bytes) (picked : option bytes) : bool :=
+  match fst ex with Some _ => true | None => opt_eqb bytes_eqb picked (snd ex) end.
